@@ -1,4 +1,5 @@
 import FitModel.CsvSpec
+import FitProps.CsvTableLemmas
 /-! Lemmas about the fitconv model (C19). Core Lean only. -/
 namespace Fit.Csv
 open Fit.Value Fit.Msg Fit.Gen Fit.Gen.Csv
@@ -80,7 +81,7 @@ theorem scalar_rt (ar : Arith) (bt : Nat) (isBool : Bool) (scale offset : Nat) (
   cases v with
   | bool x =>
     simp only [scalarOK, Bool.and_eq_true, decide_eq_true_eq] at h
-    obtain ⟨hb, hv⟩ := h
+    obtain ⟨⟨hb, _⟩, hv⟩ := h
     subst hb
     have hfmt : formatAtoms (.bool x) = [.int (x : Int)] := by
       have e : ((x : Int) % 256) = x := by omega
@@ -182,5 +183,75 @@ theorem scalar_rt (ar : Arith) (bt : Nat) (isBool : Bool) (scale offset : Nat) (
     subst hb; subst hbt
     simp [formatAtoms, cellPieces, parseCellValue, parseAtom, csvNormS, fmtStr_safe s hs, splitBar_safe s hs, btString, btSint32]
   | _ => simp [scalarOK] at h
+
+/-- what `fieldTableOK` says about one field of one profile message -/
+theorem field_facts {m : PMesg} {f : PField} (hm : m ∈ profile) (hn : m.num < mfgRangeMin) (hf : f ∈ m.fields) :
+    lookupFieldNum m.num (txt f.name) = some f.num ∧ pfield m.num f.num = some f ∧ (txt f.name).isEmpty = false ∧
+    isPrefixOf' unknownTxt (txt f.name) = false ∧ ¬(txt f.units = degreesTxt ∧ f.bt = btSint32) ∧
+    ((f.bt = btFloat32 ∨ f.bt = btFloat64) → isScaledField f.scale f.offset = false) := by
+  have h := fieldTableOK_true
+  simp only [fieldTableOK, List.all_eq_true, Bool.or_eq_true, decide_eq_true_eq, Bool.and_eq_true, beq_iff_eq,
+    Bool.not_eq_eq_eq_not, Bool.not_true] at h
+  rcases h m hm with h1 | h2
+  · omega
+  · obtain ⟨⟨⟨⟨⟨a, b⟩, c⟩, d⟩, e⟩, g⟩ := h2 f hf
+    refine ⟨a, b, c, d, ?_, ?_⟩
+    · intro ⟨hu, hb⟩
+      simp [hu, hb] at e
+    · intro hb
+      cases hs : isScaledField f.scale f.offset
+      · rfl
+      · rcases hb with hb | hb <;> simp [hb, hs] at g
+
+/-- **A known field survives the raw round trip through its cell** (raw mode or a field without scale/offset, no
+position in degrees, no sub-field substitution, scalar value). -/
+theorem field_rt (ar : Arith) (o : Opts) (ds : List Desc) (msg : Message) (fld : Field) (pm : PMesg) (p : PField)
+    (hpm : pm ∈ profile) (hnum : pm.num = msg.num) (hn : msg.num < mfgRangeMin) (hp : p ∈ pm.fields)
+    (hfn : fieldNumOf fld = p.num)
+    (hdeg : o.degrees = false) (hraw : o.raw = true ∨ isScaledField p.scale p.offset = false)
+    (hsub : substitute msg.fields p.subs = none) (harr : p.array = false)
+    (hv : scalarOK p.bt p.isBool fld.value = true) :
+    readCell ar ds msg.num (writeField o msg fld) = .ok (.field (mkField p.num p.bt (csvNormS fld.value))) := by
+  obtain ⟨h1, h2, h3, h4, h5, hfl⟩ := field_facts hpm (hnum ▸ hn) hp
+  rw [hnum] at h1 h2
+  have hw : writeField o msg fld = ⟨txt p.name, cellPieces (formatAtoms fld.value), txt p.units⟩ := by
+    simp only [writeField, hfn, h2, hsub, hdeg, Bool.false_and, Bool.false_eq_true, ↓reduceIte]
+    congr 1
+    simp only [fieldAtoms, hdeg, Bool.false_and, Bool.false_eq_true, ↓reduceIte]
+    rcases hraw with hr | hs
+    · simp [hr]
+    · simp [hs]
+  rw [hw]
+  have := scalar_rt ar p.bt p.isBool p.scale p.offset (txt p.units) fld.value hv h5 hfl
+  simp only [readCell, h3, Bool.false_eq_true, ↓reduceIte, h1, h2, harr]
+  rw [this]
+  simp
+
+/-! ### messages whose fields are all plain scalar fields -/
+
+/-- the conditions of `field_rt` for one field of a message -/
+def PlainField (o : Opts) (msg : Message) (fld : Field) : Prop :=
+  ∃ pm p, pm ∈ profile ∧ pm.num = msg.num ∧ p ∈ pm.fields ∧ fieldNumOf fld = p.num ∧
+    (o.raw = true ∨ isScaledField p.scale p.offset = false) ∧ substitute msg.fields p.subs = none ∧ p.array = false ∧
+    scalarOK p.bt p.isBool fld.value = true
+
+/-- the field as it is expected back -/
+def normField (fld : Field) : Field := mkField (fieldNumOf fld) (fieldBtOf fld) (csvNormS fld.value)
+
+theorem parseCells_plain (ar : Arith) (o : Opts) (ds : List Desc) (msg : Message) (hn : msg.num < mfgRangeMin)
+    (hdeg : o.degrees = false) :
+    ∀ (fs : List Field), (∀ f ∈ fs, PlainField o msg f ∧ ∃ p, pfield msg.num (fieldNumOf f) = some p ∧ p.bt = fieldBtOf f) →
+      parseCells ar ds msg.num (fs.map (writeField o msg)) = .ok (fs.map (fun f => Sum.inl (normField f)), [])
+  | [], _ => rfl
+  | f :: fs, h => by
+    obtain ⟨⟨pm, p, hpm, hnum, hp, hfn, hraw, hsub, harr, hv⟩, ⟨p', hp', hbt⟩⟩ := h f (List.mem_cons_self ..)
+    have hrt := field_rt ar o ds msg f pm p hpm hnum hn hp hfn hdeg hraw hsub harr hv
+    have ih := parseCells_plain ar o ds msg hn hdeg fs (fun x hx => h x (List.mem_cons_of_mem _ hx))
+    have hpp : p' = p := by
+      have := (field_facts hpm (hnum ▸ hn) hp).2.1
+      rw [hnum, ← hfn, hp'] at this
+      exact Option.some.inj this
+    subst hpp
+    simp only [List.map_cons, parseCells, hrt, ih, normField, hfn, hbt]
 
 end Fit.Csv
